@@ -183,12 +183,14 @@ func txMonitorScenarios() []*scenario {
 		a, b, n, err := cl(c).GetSizes()
 		return fmt.Sprint(a, b, n), err
 	})
-	// reply events with the other kinds the single Busy state admits
-	rHasTx := rp("HasTx", hasTx, nextTx, sizes)
-	rNextTx := rp("NextTx", nextTx, hasTx, sizes)
-	rSizes := rp("GetSizes", sizes, hasTx, nextTx)
+	// one busy state per request kind: the replies of the other kinds are not admitted
+	bad := func(e ev, ws ...wire) ev { e.Bad = ws; return e }
+	rHasTx := bad(rp("HasTx", hasTx), nextTx, sizes)
+	rNextTx := bad(rp("NextTx", nextTx), hasTx, sizes)
+	rSizes := bad(rp("GetSizes", sizes), hasTx, nextTx)
 	mk := func(name string, calls []apiCall, script []ev) *scenario {
-		return &scenario{Name: "txmon/" + name, Proto: proto, ProtoID: id, Mode: modeNtC, Calls: calls, Script: script, BadExtra: badExtra}
+		return &scenario{Name: "txmon/" + name, Proto: proto, ProtoID: id, Mode: modeNtC, Calls: calls, Script: script, BadExtra: badExtra,
+			SM: &smBinding{localtxmonitor.StateMap, localtxmonitor.NewMsgFromCbor, "Idle"}}
 	}
 	return []*scenario{
 		mk("Acquire", []apiCall{cAcquire}, []ev{rq(1, "Acquire"), rp("Acquire", acquired)}),
@@ -271,7 +273,8 @@ func lsqScenarios() []*scenario {
 		return e
 	}
 	mk := func(name string, calls []apiCall, script []ev) *scenario {
-		return &scenario{Name: "lsq/" + name, Proto: proto, ProtoID: id, Mode: modeNtC, Calls: calls, Script: script, BadExtra: badExtra}
+		return &scenario{Name: "lsq/" + name, Proto: proto, ProtoID: id, Mode: modeNtC, Calls: calls, Script: script, BadExtra: badExtra,
+			SM: &smBinding{localstatequery.StateMap, localstatequery.NewMsgFromCbor, "Idle"}}
 	}
 	q := func(name string, c apiCall, res wire) *scenario {
 		return mk(name, []apiCall{cAcquireTip, c}, []ev{rq(8, "AcquireVolatileTip"), rAcq("AcquireVolatileTip"), rq(3, name), rRes(name, res)})
@@ -317,7 +320,8 @@ func txSubmissionScenarios() []*scenario {
 	r := rp("SubmitTx", accept, reject, rejectOdd)
 	r2 := rp("SubmitTx~2", accept, reject, rejectOdd)
 	mk := func(name string, calls []apiCall, script []ev) *scenario {
-		return &scenario{Name: "txsubmit/" + name, Proto: proto, ProtoID: id, Mode: modeNtC, Calls: calls, Script: script, BadExtra: badExtra}
+		return &scenario{Name: "txsubmit/" + name, Proto: proto, ProtoID: id, Mode: modeNtC, Calls: calls, Script: script, BadExtra: badExtra,
+			SM: &smBinding{localtxsubmission.StateMap, localtxsubmission.NewMsgFromCbor, "Idle"}}
 	}
 	return []*scenario{
 		mk("SubmitTx", []apiCall{cSubmit}, []ev{rq(0, "SubmitTx"), r}),
@@ -415,7 +419,11 @@ func chainSyncScenarios() []*scenario {
 			return e
 		}
 		mk := func(name string, limit int, calls []apiCall, script []ev) *scenario {
-			return &scenario{Name: pfx + name, Proto: proto, ProtoID: id, Mode: mode, Calls: calls, Script: script, BadExtra: badExtra, Opts: chainSyncOpts(limit)}
+			sm := &smBinding{chainsync.StateMapNtC, chainsync.NewMsgFromCborNtC, "Idle"}
+			if ntn {
+				sm = &smBinding{chainsync.StateMapNtN, chainsync.NewMsgFromCborNtN, "Idle"}
+			}
+			return &scenario{Name: pfx + name, Proto: proto, ProtoID: id, Mode: mode, Calls: calls, Script: script, BadExtra: badExtra, Opts: chainSyncOpts(limit), SM: sm}
 		}
 		out = append(out,
 			mk("GetCurrentTip", 0, []apiCall{cTip}, []ev{rq(4, "GetCurrentTip"), rInt("GetCurrentTip", foundOrigin)}),
@@ -495,7 +503,8 @@ func blockFetchScenarios() []*scenario {
 	rBlock := func(cn string, w wire) ev { return rp(cn, w, done, badBlock) }
 	rDone := func(cn string) ev { return rp(cn, done, blk1, badBlock) }
 	mk := func(name string, calls []apiCall, script []ev) *scenario {
-		return &scenario{Name: "blockfetch/" + name, Proto: proto, ProtoID: id, Mode: modeNtN, Calls: calls, Script: script, BadExtra: badExtra, Opts: opts}
+		return &scenario{Name: "blockfetch/" + name, Proto: proto, ProtoID: id, Mode: modeNtN, Calls: calls, Script: script, BadExtra: badExtra, Opts: opts,
+			SM: &smBinding{blockfetch.StateMap, blockfetch.NewMsgFromCbor, "Idle"}}
 	}
 	return []*scenario{
 		mk("GetBlock", []apiCall{cGet}, []ev{rq(0, "GetBlock"), rStart("GetBlock"), rBlock("GetBlock", blk0), rDone("GetBlock")}),
@@ -529,7 +538,8 @@ func peerSharingScenarios() []*scenario {
 	})
 	r := rp("GetPeers", peers, none, odd)
 	mk := func(name string, calls []apiCall, script []ev) *scenario {
-		return &scenario{Name: "peersharing/" + name, Proto: proto, ProtoID: id, Mode: modeNtN, Calls: calls, Script: script, BadExtra: badExtra}
+		return &scenario{Name: "peersharing/" + name, Proto: proto, ProtoID: id, Mode: modeNtN, Calls: calls, Script: script, BadExtra: badExtra,
+			SM: &smBinding{peersharing.StateMap, peersharing.NewMsgFromCbor, "Idle"}}
 	}
 	return []*scenario{
 		mk("GetPeers", []apiCall{cGet}, []ev{rq(0, "GetPeers"), r}),
@@ -558,6 +568,7 @@ func keepAliveScenarios() []*scenario {
 	q := rq(0, "keep-alive-client")
 	return []*scenario{{
 		Name: "keepalive/client", Proto: proto, ProtoID: id, Mode: modeNtN, Opts: opts, BadExtra: badExtra,
+		SM: &smBinding{keepalive.StateMap, keepalive.NewMsgFromCbor, "Client"},
 		Script: []ev{q, r, q, r, q, r},
 	}}
 }
@@ -586,6 +597,15 @@ func txSubmissionServerScenarios() []*scenario {
 		)
 		return []ouroboros.ConnectionOptionFunc{ouroboros.WithTxSubmissionConfig(cfg)}
 	}
+	// the same with a Done callback that takes 3 ms (bookkeeping, logging): the restart of
+	// the server protocol that follows MsgDone then happens after a prompt disconnect
+	optsSlowDone := func() []ouroboros.ConnectionOptionFunc {
+		cfg := txsubmission.NewConfig(
+			txsubmission.WithInitFunc(func(txsubmission.CallbackContext) error { return nil }),
+			txsubmission.WithDoneFunc(func(txsubmission.CallbackContext) error { time.Sleep(3 * time.Millisecond); return nil }),
+		)
+		return []ouroboros.ConnectionOptionFunc{ouroboros.WithTxSubmissionConfig(cfg)}
+	}
 	sv := func(c *ouroboros.Connection) *txsubmission.Server { return c.TxSubmission().Server }
 	cIdsB := call("RequestTxIds(blocking)", func(c *ouroboros.Connection) (string, error) {
 		v, err := sv(c).RequestTxIds(true, 4)
@@ -601,11 +621,17 @@ func txSubmissionServerScenarios() []*scenario {
 	})
 	rInit := func(cn string) ev { return rp(cn, init) }
 	mk := func(name string, calls []apiCall, script []ev) *scenario {
-		return &scenario{Name: "txsubmission-server/" + name, Proto: proto, ProtoID: id, Mode: modeNtNServer, Calls: calls, Script: script, BadExtra: badExtra, Opts: opts}
+		return &scenario{Name: "txsubmission-server/" + name, Proto: proto, ProtoID: id, Mode: modeNtNServer, Calls: calls, Script: script, BadExtra: badExtra, Opts: opts,
+			SM: &smBinding{txsubmission.StateMap, txsubmission.NewMsgFromCbor, "Init"}}
 	}
 	return []*scenario{
 		mk("RequestTxIds-blocking", []apiCall{cIdsB}, []ev{rInit("RequestTxIds(blocking)"), rq(0, "RequestTxIds(blocking)"), rp("RequestTxIds(blocking)", ids, done)}),
 		mk("RequestTxIds-blocking-Done", []apiCall{cIdsB}, []ev{rInit("RequestTxIds(blocking)"), rq(0, "RequestTxIds(blocking)"), rp("RequestTxIds(blocking)", done, ids)}),
+		func() *scenario {
+			s := mk("RequestTxIds-blocking-Done-callback3ms", []apiCall{cIdsB}, []ev{rInit("RequestTxIds(blocking)"), rq(0, "RequestTxIds(blocking)"), rp("RequestTxIds(blocking)", done, ids)})
+			s.Opts = optsSlowDone
+			return s
+		}(),
 		mk("RequestTxIds-nonblocking", []apiCall{cIdsNB}, []ev{rInit("RequestTxIds(non-blocking)"), rq(0, "RequestTxIds(non-blocking)"), func() ev {
 			e := rp("RequestTxIds(non-blocking)", ids, noIds)
 			e.Bad = []wire{done}
@@ -662,7 +688,8 @@ func leiosScenarios() []*scenario {
 			return fmt.Sprint(len(m)), err
 		})
 		mk := func(name string, calls []apiCall, script []ev) *scenario {
-			return &scenario{Name: "leiosfetch/" + name, Proto: proto, ProtoID: id, Mode: modeNtN, Calls: calls, Script: script, BadExtra: badExtra}
+			return &scenario{Name: "leiosfetch/" + name, Proto: proto, ProtoID: id, Mode: modeNtN, Calls: calls, Script: script, BadExtra: badExtra,
+				SM: &smBinding{leiosfetch.StateMap, leiosfetch.NewMsgFromCbor, "Idle"}}
 		}
 		out = append(out,
 			mk("BlockRequest", []apiCall{cBlock}, []ev{rq(0, "BlockRequest"), rp("BlockRequest", block, noBlock)}),
@@ -696,9 +723,11 @@ func leiosScenarios() []*scenario {
 		cStop := call("Stop", func(c *ouroboros.Connection) (string, error) { return okStr(cl(c).Stop()) })
 		out = append(out,
 			&scenario{Name: "leiosnotify/Sync", Proto: proto, ProtoID: id, Mode: modeNtN, Opts: opts, BadExtra: badExtra,
+				SM: &smBinding{leiosnotify.StateMap, leiosnotify.NewMsgFromCbor, "Idle"},
 				Calls:  []apiCall{cSync},
 				Script: []ev{rq(0, "Sync"), rp("Sync", offer, txsOffer), rq(0, "Sync"), rp("Sync", txsOffer, offer), rq(0, "Sync"), rp("Sync", offer, txsOffer)}},
 			&scenario{Name: "leiosnotify/Sync-Stop", Proto: proto, ProtoID: id, Mode: modeNtN, Opts: opts, BadExtra: badExtra,
+				SM: &smBinding{leiosnotify.StateMap, leiosnotify.NewMsgFromCbor, "Idle"},
 				Calls:  []apiCall{cSync, cStop},
 				Script: []ev{rq(0, "Sync"), rp("Sync", offer, txsOffer)}},
 		)
